@@ -150,10 +150,14 @@ impl BuiltInFunction {
                     unreachable!()
                 };
 
-                v.0.borrow_mut()
-                    .reserve((*size).try_into().with_context(|| {
-                        format!("additional vector capacity `{size}` could not fit in an int (i32)")
-                    })?);
+                let additional: usize = (*size).try_into().with_context(|| {
+                    format!("additional vector capacity `{size}` could not fit in an int (i32)")
+                })?;
+
+                // `reserve` aborts the process when the allocation fails
+                if v.0.borrow_mut().try_reserve(additional).is_err() {
+                    bail!("could not reserve capacity for {size} more elements")
+                }
 
                 Ok((None, None))
             }
